@@ -15,9 +15,19 @@ import (
 // W is a TL writer.
 type W struct{ bytes.Buffer }
 
-func (w *W) U32(v uint32) *W { var b [4]byte; binary.LittleEndian.PutUint32(b[:], v); w.Write(b[:]); return w }
-func (w *W) I32(v int32) *W  { return w.U32(uint32(v)) }
-func (w *W) I64(v int64) *W  { var b [8]byte; binary.LittleEndian.PutUint64(b[:], uint64(v)); w.Write(b[:]); return w }
+func (w *W) U32(v uint32) *W {
+	var b [4]byte
+	binary.LittleEndian.PutUint32(b[:], v)
+	w.Write(b[:])
+	return w
+}
+func (w *W) I32(v int32) *W { return w.U32(uint32(v)) }
+func (w *W) I64(v int64) *W {
+	var b [8]byte
+	binary.LittleEndian.PutUint64(b[:], uint64(v))
+	w.Write(b[:])
+	return w
+}
 func (w *W) Raw(b []byte) *W { w.Write(b); return w }
 func (w *W) Str(b []byte) *W {
 	n := len(b)
@@ -73,41 +83,41 @@ func (r *R) Str() []byte {
 
 // constructor ids (schemes/mtproto.tl and the few API objects the harness answers with)
 const (
-	CrcReqPQ            = 0x60469778
-	CrcResPQ            = 0x05162463
-	CrcPQInnerData      = 0x83c95aec
-	CrcReqDHParams      = 0xd712e4be
-	CrcServerDHOk       = 0xd0e8075c
-	CrcServerDHFail     = 0x79cb045d
-	CrcServerDHInner    = 0xb5890dba
-	CrcClientDHInner    = 0x6643b654
-	CrcSetClientDH      = 0xf5045f1f
-	CrcDHGenOk          = 0x3bcbf734
-	CrcDHGenRetry       = 0x46dc1fb9
-	CrcDHGenFail        = 0xa69dae02
-	CrcVector           = 0x1cb5c415
-	CrcRpcResult        = 0xf35c6d01
-	CrcRpcError         = 0x2144ca19
-	CrcGzipPacked       = 0x3072cfa1
-	CrcMsgContainer     = 0x73f1f8dc
-	CrcMsgsAck          = 0x62d6b459
-	CrcBadMsgNotify     = 0xa7eff811
-	CrcBadServerSalt    = 0xedab447b
-	CrcNewSession       = 0x9ec20908
-	CrcPing             = 0x7abe77ec
-	CrcPong             = 0x347773c5
-	CrcBoolTrue         = 0x997275b5
-	CrcBoolFalse        = 0xbc799737
-	CrcNearestDc        = 0x8e1a1775
-	CrcFutureSalts      = 0xae500895
-	CrcMsgsStateInfo    = 0x04deb57d
-	CrcMsgsAllInfo      = 0x8cc0d131
-	CrcMsgDetailedInfo  = 0x276d3ec6
-	CrcMsgNewDetailed   = 0x809db6df
-	CrcMsgResendReq     = 0x7d861a08
-	CrcMsgsStateReq     = 0xda69fb52
-	CrcUpdatesTooLong   = 0xe317af7e
-	CrcUpdateShort      = 0x78d4dec1
+	CrcReqPQ           = 0x60469778
+	CrcResPQ           = 0x05162463
+	CrcPQInnerData     = 0x83c95aec
+	CrcReqDHParams     = 0xd712e4be
+	CrcServerDHOk      = 0xd0e8075c
+	CrcServerDHFail    = 0x79cb045d
+	CrcServerDHInner   = 0xb5890dba
+	CrcClientDHInner   = 0x6643b654
+	CrcSetClientDH     = 0xf5045f1f
+	CrcDHGenOk         = 0x3bcbf734
+	CrcDHGenRetry      = 0x46dc1fb9
+	CrcDHGenFail       = 0xa69dae02
+	CrcVector          = 0x1cb5c415
+	CrcRpcResult       = 0xf35c6d01
+	CrcRpcError        = 0x2144ca19
+	CrcGzipPacked      = 0x3072cfa1
+	CrcMsgContainer    = 0x73f1f8dc
+	CrcMsgsAck         = 0x62d6b459
+	CrcBadMsgNotify    = 0xa7eff811
+	CrcBadServerSalt   = 0xedab447b
+	CrcNewSession      = 0x9ec20908
+	CrcPing            = 0x7abe77ec
+	CrcPong            = 0x347773c5
+	CrcBoolTrue        = 0x997275b5
+	CrcBoolFalse       = 0xbc799737
+	CrcNearestDc       = 0x8e1a1775
+	CrcFutureSalts     = 0xae500895
+	CrcMsgsStateInfo   = 0x04deb57d
+	CrcMsgsAllInfo     = 0x8cc0d131
+	CrcMsgDetailedInfo = 0x276d3ec6
+	CrcMsgNewDetailed  = 0x809db6df
+	CrcMsgResendReq    = 0x7d861a08
+	CrcMsgsStateReq    = 0xda69fb52
+	CrcUpdatesTooLong  = 0xe317af7e
+	CrcUpdateShort     = 0x78d4dec1
 )
 
 func RpcResult(reqID int64, result []byte) []byte {
